@@ -11,6 +11,8 @@ import Bluge.Layout
   case is `bad:layout-dependent…`. The digest comes from a view of the index that does not recycle term
   field readers; `hist=` is the harness's probe of the recycling reader (three rounds of the same
   requests must return the same ids).
+* `recipe … backup=1 bkfail=…|bkcancel=1 @ … bkin=…` : additionally the `bk=` section — what a backup that is cut short
+  leaves in the target, that no reader opens it, and that the backup run again opens (`Layout.backup`, `BDir.openReader`).
 * `opt …`               : the model of the rewrites of index/optimize.go (`Layout.conjFinish`,
   `disjFinish`, `pushdown`, `rewrittenMin`) on the observed per-segment iterator shapes. -/
 open Bluge Bluge.Layout
@@ -272,6 +274,28 @@ def offlineSection (docs : List Doc) (bs : Nat) : Option String :=
     some ("phys=snp:" ++ hexNat r.snapshotEpoch ++ ";seg:" ++ joinOrDash ((r.segFiles.map hexNat).mergeSort (fun a b => a ≤ b)) ","
       ++ ";ord:" ++ joinOrDash (r.abs.map (·.id)) ",")
 
+/-- the `bk=` section of a backup that was cut short (`bkin=<mode>:<failing Persist or ->:<epoch>:<segment ids>`, read off
+the reader's snapshot by the harness): what `Layout.backup` leaves in a FRESH target directory when that `Persist` fails
+(segment files, snapshot files), whether `BDir.openReader` opens it, and — when the backup failed and nothing opens —
+the backup run again into that directory (`backup none`), which has to open as the snapshot. Segment contents do not
+matter for the listing: segments are modelled with no documents. -/
+def backupSection (bkin : String) : String :=
+  match bkin.splitOn ":" with
+  | [_, k, ep, ids] =>
+    let idl := (splitNonEmpty ids "+").filterMap String.toNat?
+    let s : RSnap Unit := { epoch := ep.toNat?.getD 0, segs := idl.map fun i => { id := i, docs := [], deleted := [] } }
+    let r1 := backup k.toNat? s {}
+    let lst (l : List Nat) : String := joinOrDash ((l.mergeSort (fun a b => a ≤ b)).map toString) "+"
+    let open1 := r1.1.openReader.isSome
+    let redo :=
+      if !r1.2 && !open1 then
+        let r2 := backup none s r1.1
+        if r2.2 && r2.1.openReader == some (s.epoch, s.content) then "ok" else "FAILED"
+      else "-"
+    "ret:" ++ (if r1.2 then "nil" else "err") ++ ";seg:" ++ lst r1.1.segIds ++ ";snp:" ++ lst r1.1.snapEpochs ++
+      ";oth:0;open:" ++ (if open1 then "ok" else "err") ++ ";redo:" ++ redo
+  | _ => "?"
+
 structure Recipe where
   name : String
   p : List (String × String)
@@ -334,12 +358,20 @@ def recipeStep (st : CaseSt) (op impl : String) : CaseSt × String :=
   let kind :=
     if r.isOffline then "offline" else if r.multi > 0 then "multisearch"
     else if r.get "tailmerge" == "1" then "tail-merge"
+    else if r.get "backup" == "1" && r.get "bkfail" != "" then "backup-partial"
+    else if r.get "backup" == "1" && r.get "bkcancel" == "1" then "backup-cancel"
     else if r.get "backup" == "1" then "backup" else if r.get "reopen" == "1" then "reopen"
     else if r.get "score" == "none" then "score-none" else if r.get "noopt" != "" then "noopt"
     else if r.get "merge" == "1" then "merge" else if r.get "ver" == "2" then "v2" else "plain"
   let brs := [kind] ++ (if r.merged then ["merged-segment"] else []) ++ (if r.del > 0 then ["pending-deletions"] else [])
     ++ (if look r.phys "tail" == "true" then ["merge-behind-deletions"] else [])
     ++ (if st.docs.isEmpty then ["empty-corpus"] else []) ++ (if r.simple then ["exact-order"] else [])
+    ++ (let bkin := look r.phys "bkin"
+        if bkin == "" then [] else
+        let bk := backupSection bkin
+        (if (bk.splitOn "open:err").length > 1 then ["backup-unopenable"] else []) ++
+        (if (bk.splitOn "redo:ok").length > 1 then ["backup-resumed"] else []) ++
+        (if bkin.startsWith "cancel:-:" then ["backup-cancel-ignored"] else if bkin.startsWith "cancel:" then ["backup-cancel-honoured"] else []))
   let br := " br=" ++ ",".intercalate brs
   -- the model's first section
   let off : Option (Option String) :=
@@ -351,7 +383,8 @@ def recipeStep (st : CaseSt) (op impl : String) : CaseSt × String :=
     (st, "panic" ++ sep ++ (if impl == "panic" then s!"bad:panic:{r.name}" else "na") ++ br ++ ",model-panic")
   else
   let head : List (String × String) := [("cnt", toString st.docs.length)] ++
-    (match off with | some (some s) => (kvs [s]) | _ => [])
+    (match off with | some (some s) => (kvs [s]) | _ => []) ++
+    (if look r.phys "bkin" == "" then [] else [("bk", backupSection (look r.phys "bkin"))])
   let implSecs := sectionsOf impl
   let implLook (q k : String) : Option String :=
     match implSecs.find? (·.1 == q) with
@@ -377,7 +410,7 @@ def recipeStep (st : CaseSt) (op impl : String) : CaseSt × String :=
     if !isDigest then st else
     let st1 := if st.ref.isEmpty then
         { st with ref := implSecs.flatMap fun s => s.2.filterMap fun p =>
-            if p.1.startsWith "x" || p.1 == "phys" || p.1 == "sc" || p.1 == "scm" || p.1 == "hist" then none
+            if p.1.startsWith "x" || p.1 == "phys" || p.1 == "bk" || p.1 == "sc" || p.1 == "scm" || p.1 == "hist" then none
             else some (s.1 ++ "." ++ p.1, p.2, r.name) }
       else st
     if scKey == "sc" && st1.refSc.isEmpty then
